@@ -114,7 +114,10 @@ pub fn gen_frame(rng: &mut Rng, k: &Kind, compressed: bool, dirt: u8, rows_hint:
             let ew = fixed_width(elt);
             let cap = ((maxlen - base) / ew).min(255);
             let n = rows_hint.unwrap_or_else(|| match rng.below(6) { 0 => 0, 1 => 1, 2 => 2, 3 => cap, 4 => cap.saturating_sub(1), _ => rng.below(cap as u64 + 1) as usize }).min(cap);
-            let mut t = vec![]; for _ in 0..n { t.extend(gen_fixed(rng, elt, 0, dirt, &mut m)); }
+            // elements are independent values: equal neighbours (runs of one element, an element repeated right after itself) are as legal as any
+            let rep = rng.below(5);   // 0 = every element equal, 1 = each element repeats its predecessor half of the time, else all fresh
+            let mut t: Vec<u8> = vec![]; for i in 0..n { if i > 0 && (rep == 0 || (rep == 1 && rng.chance(1, 2))) { let prev = t[t.len() - ew..].to_vec(); t.extend(prev); } else { t.extend(gen_fixed(rng, elt, 0, dirt, &mut m)); } }
+            if rep <= 1 && n >= 2 { m.notes.push("equal neighbouring elements"); }
             t.extend(vec![0u8; (n % padm) * padk]);
             m.rows = n; (n as u64, t)
         },
